@@ -117,6 +117,10 @@ func sampleCells(cells []faultCase, sample, shard, shards int) []faultCase {
 		for _, c := range cells {
 			k := c.F.MsgType + "/" + c.F.Field.Name
 			switch {
+			case c.F.All:
+				k += "/all/" + c.F.Kind
+			case c.F.Kind == "rand-all-fields":
+				k += "/" + c.F.Kind
 			case strings.HasPrefix(c.F.Kind, "commit:"):
 				k += "/commit"
 			case strings.HasPrefix(c.F.Kind, "mta-") || strings.HasPrefix(c.F.Kind, "redeal:"):
